@@ -1,4 +1,5 @@
 import ExaModel.Bytes
+import ExaModel.Generated.FieldLimits
 /-!
 # M-Fields — the numeric and length fields of the route / flow / vpls / attribute grammar
 
@@ -21,7 +22,7 @@ Field values shorter on the wire than `width` (FlowSpec numeric values take 1, 2
 depending on the value; an RD or a route-target switches between the 2-byte-AS and 4-byte-AS form)
 are compared left-padded with zero bytes: the integer is the same.
 
-Import-free apart from `ExaModel.Bytes`; no Mathlib (the driver links).
+Imports `ExaModel.Bytes` and the generated `FieldLimits` (plain data); no Mathlib (the driver links).
 -/
 namespace Exa.Fields
 open Exa
@@ -303,5 +304,45 @@ def Field.name : Field → String
   | .redirectLocalA32 => "redirectLocalA32" | .markDscp => "markDscp"
 
 def Field.ofName? (s : String) : Option Field := allFields.find? (fun f => f.name == s)
+
+/-! ## The acceptance side: what the text parser of /repo lets through
+
+`accepts f v` is the range check the parser applies to a plain decimal token `v` written for field
+`f` (in the template the sweep uses), as a function of the bounds re-extracted from the parser sources
+on every run (`Generated/FieldLimits.lean`, one row per field, read from the comparisons of the source
+by `harness/tables/fields.py`).  A field without a row accepts nothing.  `Props/C18.lean` proves that
+this is exactly `fits` (`accepts_iff_fits`), with the one qualification that a list must also leave
+room for the rest of the UPDATE. -/
+
+/-- the number of elements of a list, or of data bytes: bounded by the room in an UPDATE, not by a field -/
+def Field.isCount : Field → Bool
+  | .attrLen | .communitiesCount | .largeCommunitiesCount | .extCommunitiesCount | .clusterCount => true
+  | _ => false
+
+/-- bytes one element adds to the attribute value (RFC 4271 / 1997 / 8092 / 4360 / 4456) -/
+def Field.unit : Field → Nat
+  | .communitiesCount | .clusterCount => 4
+  | .largeCommunitiesCount => 12
+  | .extCommunitiesCount => 8
+  | _ => 1
+
+def lookupBound (n : String) : List (String × Int × Int) → Option (Int × Int)
+  | [] => none
+  | (k, lo, hi) :: t => if k == n then some (lo, hi) else lookupBound n t
+
+/-- the generated bounds of the parser for this field -/
+def parserBound (f : Field) : Option (Int × Int) :=
+  lookupBound f.name Exa.Generated.FieldLimits.parserBounds
+
+def accepts (f : Field) (v : Int) : Bool :=
+  match parserBound f with
+  | some (lo, hi) => decide (lo ≤ v) && decide (v ≤ hi)
+  | none => false
+
+/-- what the repaired parser should accept, written independently of the generated table: the RFC
+    limit of the field, and for a list what leaves room in a 65535-byte UPDATE for the header (19),
+    the two length fields (4), the attribute header (4) and 128 bytes of other attributes and NLRI -/
+def acceptLimit (f : Field) : Nat :=
+  if f.isCount then (65535 - 19 - 4 - 4 - 128) / f.unit + 1 else rfcLimit f
 
 end Exa.Fields
